@@ -5,7 +5,7 @@ From Coq Require Import List NArith Bool Lia.
 From Breadlog Require Import Model.Peg Model.Text Model.Regex Model.Glue Model.Tables Model.Utf8 Model.Driver Model.History.
 From Breadlog Require Import Gen.Consts.
 From Breadlog Require Import Proofs.RewriteFacts Proofs.WorldFacts Proofs.DriverFacts Proofs.AllocFacts Proofs.RunFacts
-     Proofs.StatementLemmas Proofs.FileSpec.
+     Proofs.StatementLemmas Proofs.ArgLemmas Proofs.FileSpec.
 Import ListNotations.
 Open Scope N_scope.
 
